@@ -18,4 +18,12 @@ pub broadcast group g_io_fl {
     crate::vl_layout::lemma_enc_xys_push, crate::vl_layout::lemma_enc_ms_push, crate::vl_layout::lemma_enc_zs_push,
     crate::vl_layout::ax_size_of_point, crate::vl_layout::lemma_enc_xys_parts_push, crate::vl_layout::lemma_enc_ms_parts_push, crate::vl_layout::lemma_enc_zs_parts_push,
 }
+/// everything above plus the point-type elimination lemmas (shape modules)
+pub broadcast group g_shapes {
+    crate::vp_bytes::g_bytes, vstd::layout::group_layout_axioms, crate::vp_io::g_ws, crate::vp_io::g_rs,
+    crate::vp_io::lemma_splice_len, crate::vp_io::g_wr, crate::vl_types::lemma_discriminants, crate::vp_float::g_float,
+    crate::vl_layout::lemma_enc_xys_push, crate::vl_layout::lemma_enc_ms_push, crate::vl_layout::lemma_enc_zs_push,
+    crate::vl_layout::ax_size_of_point, crate::vl_layout::lemma_enc_xys_parts_push, crate::vl_layout::lemma_enc_ms_parts_push, crate::vl_layout::lemma_enc_zs_parts_push,
+    crate::vl_points::g_points,
+}
 }
